@@ -26,6 +26,7 @@ mod tetris2;
 mod misc;
 mod serde18;
 mod layers;
+mod bbox;
 
 use serde_json::Value;
 
@@ -43,6 +44,7 @@ pub fn commands() -> Vec<(&'static str, CmdFn)> {
     v.extend(tetris::commands());
     v.extend(misc::commands());
     v.extend(layers::commands());
+    v.extend(bbox::commands());
     v
 }
 
